@@ -116,7 +116,7 @@ theorem runHist_ordered (maxB : Nat) : ∀ (h : List (Save × Nat)) (g0 : Nat) (
 def noTruncation (maxB : Nat) (fs : FS) : List (Save × Nat) → Bool
   | [] => true
   | (sv, k) :: rest =>
-    decide (faultKind (plan maxB sv fs) k ≠ .truncates) && noTruncation maxB (save maxB sv k fs).1 rest
+    decide (faultKind sv.pol (plan maxB sv fs) k ≠ .truncates) && noTruncation maxB (save maxB sv k fs).1 rest
 
 theorem runHist_noPartialZip (maxB : Nat) : ∀ (h : List (Save × Nat)) (fs : FS),
     NoPartialZip fs → noTruncation maxB fs h = true → NoPartialZip (runHist maxB fs h) := by
